@@ -528,7 +528,7 @@ class ExtendedIndexedOperand(Operand):
             )
         size = self.instruction.mode.ind_sz
 
-        if type(self.value) != str and self.value.is_address():
+        if type(self.value) != str and (self.value.is_address() or self.value.is_address_expression()):
             size += 2
             return CodePackage(
                 op_code=NumericValue(self.instruction.mode.ind),
